@@ -31,7 +31,13 @@ def run(ctx):
         if "{closure" in n:
             return True
         rest = n[len(P):] if n.startswith(P) else None
-        return rest is not None and "::" not in rest and "<" not in rest and rest != "insert_and_move_rule"
+        if rest is None or "<" in rest or rest == "insert_and_move_rule":
+            return False
+        if "::" not in rest:
+            return True
+        # private methods of Ruleset (an extracted `default_override_position(&self)`), as opposed to its public operations
+        g = w.lookup(n)
+        return rest.startswith("Ruleset::") and rest.count("::") == 1 and g is not None and "Restricted" in str(g.get("vis")) and "push" in str(g.get("vis"))
     dex = D.Dex(w.lookup, adt_discr=w.adt_discr, effects=eff, unroll=1, inline=helper)
 
     ctx.rule("C13.atomic", "no path of insert_and_move_rule / Ruleset::{remove,set_enabled,set_actions} that returns Err performs a mutating IndexSet "
@@ -165,12 +171,30 @@ def run(ctx):
         var = {"override_": "Override", "content": "Content", "room": "Room", "sender": "Sender", "underride": "Underride"}[k]
         if k == "override_":
             # second place only when the first place is taken by the master rule: 1 if `self.override_.first()` is `.m.rule.master`, else 0
-            pos = {x[1] for x in s}
             shape = bool(s) and all((x[0], x[2], x[3]) == (f"rule.{var}.0", "after", "before") for x in s)
-            # the position is the truth value of "the first override rule is the master rule" (0 when there is no first rule)
-            MASTER = r"IndexSet::first\(self\.override_\)\.Some\.0\.rule_id==(?:PredefinedOverrideRuleId::as_(?:str|ref)\(PredefinedOverrideRuleId::Master\)|'\.m\.rule\.master')"
-            is_master = {x for x in pos if re.fullmatch(rf"(?:cast\()?{MASTER}\)?", x)}
-            good = shape and bool(is_master) and pos - is_master <= {"False", "0"}
+            # the position is the truth value of "the first override rule is the master rule" (0 when there is no first rule): either as one expression,
+            # or as the constants 1 / 0 on paths that have decided that test
+            FIRST = r"IndexSet::first\(self\.override_\)"
+            MASTER = FIRST + r"\.Some\.0\.rule_id==(?:PredefinedOverrideRuleId::as_(?:str|ref)\(PredefinedOverrideRuleId::Master\)|'\.m\.rule\.master')"
+            good, n_calls = shape, 0
+            for p in ipaths:
+                for e in p.effects:
+                    if e[0] != P + "insert_and_move_rule" or U.shows(e[1])[0] != "self.override_":
+                        continue
+                    n_calls += 1
+                    pos_ = U.shows(e[1])[2]
+                    conds = [(D.show_atom(a_), t_) for a_, t_ in p.conds]
+                    is_m = [t_ for a_, t_ in conds if re.fullmatch(MASTER, a_)]
+                    no_first = any(re.fullmatch(FIRST + r" is None", a_) and t_ or re.fullmatch(FIRST + r" is Some", a_) and not t_ for a_, t_ in conds)
+                    if re.fullmatch(rf"(?:cast\()?{MASTER}\)?", pos_):
+                        continue
+                    if pos_ in ("1", "True"):
+                        good = good and is_m == [True]
+                    elif pos_ in ("0", "False"):
+                        good = good and (is_m == [False] or no_first)
+                    else:
+                        good = False
+            good = good and n_calls > 0
             ctx.check(good, "C13.positions", f"C13.positions:{k}", w.where(fi),
                       bad_msg=f"override_: insert_and_move_rule called with {sorted(s)}: the default position must be 1 exactly when the first override rule is `.m.rule.master` and 0 "
                               f"otherwise (with a constant 1, a new rule in a ruleset without the master rule lands behind an older user rule instead of becoming the most important)")
